@@ -12,6 +12,8 @@ CONSTANTS Depth, DeepIds, BaseIds,   \* as in TRCPayload
           KindIds,                   \* signer info kinds (indices into AllKinds) used by the "si" deviation
           FinalKindIds,              \* further kinds applied to the accepted updates themselves only (the case
                                      \* is not deviated further): one representative of every forgery in quick
+          SampleMod, SampleRes,      \* emit only cases of full depth whose checksum = SampleRes mod SampleMod
+                                     \* (SampleMod = 1: emit every case)
           QuorumLowerBound, EmitScenarios
 
 C(cls, subj, sn, ver) ==
@@ -127,6 +129,14 @@ BasesAccepted == depth = 0 => Code32(cs) /\ Spec32(cs)
 
 IxPayload(pl, ix) == [pl EXCEPT !.certs = ix]
 Scenario(c) == [hp |-> c.hp, pred |-> IxPayload(Pred(c), <<1, 2, 3, 4, 5>>), next |-> IxPayload(NextP(c), c.nc), sk |-> c.sk]
-Emit == EmitScenarios => PrintT(<<"SCN", ToJson(Scenario(cs))>>)
+KindIx(k) == CHOOSE i \in 1..Len(AllKinds) : AllKinds[i] = k
+SumTo(f, n) == LET S[i \in 0..n] == IF i = 0 THEN 0 ELSE S[i - 1] + f[i] IN S[n]
+Chk(c) == c.q + 3 * c.hdr.serial + 5 * c.hdr.quorum + 7 * c.hdr.isd + 11 * c.hdr.base + (IF c.hp THEN 13 ELSE 0)
+          + (IF c.hdr.reset THEN 17 ELSE 0) + 19 * Len(c.hdr.core) + 23 * c.hdr.grace + 29 * c.hdr.na
+          + SumTo([i \in 1..Len(c.nc) |-> (i + 1) * c.nc[i]], Len(c.nc))
+          + SumTo([i \in 1..Len(c.votes) |-> (i + 2) * (c.votes[i] + 1)], Len(c.votes))
+          + SumTo([i \in 1..NPool |-> (i + 3) * KindIx(c.sk[i])], NPool)
+Emit == (EmitScenarios /\ (SampleMod = 1 \/ (depth = Depth /\ Chk(cs) % SampleMod = SampleRes)))
+          => PrintT(<<"SCN", ToJson(Scenario(cs))>>)
 ASSUME EmitScenarios => PrintT(<<"POOL", ToJson(CertPool)>>)
 =============================================================================
